@@ -1,3 +1,5 @@
+//go:build go1.23
+
 package inactivity
 
 // C12, inactivity claim signing: the claim signing state is fed generated
